@@ -18,7 +18,7 @@ pub const SPEC: PropSpec = PropSpec {
     required: &["items.ok", "items.ExpectedEq", "items.ExpectedValue", "items.UnquotedValue", "items.ExpectedQuote", "items.Duplicated", "recovered_then_intact", "dup.skipped_ws_in_value", "dup.skipped_other_quote", "dup.skipped_spaces_around_eq", "modes_seen_all4", "via_bytes_start"],
     run,
     replay,
-    thorough_layers: &[],
+    thorough_layers: &[("fuzz", 30)],
     quick_layers: &[],
     post: Some(post),
 };
@@ -316,6 +316,9 @@ fn flush(ctx: &mut Ctx, loc: &Local) {
 }
 
 fn replay(case: &Value, _ctx: &mut Ctx) -> Option<String> {
+    if let Some(h) = case.get("fuzz").and_then(|v| v.as_str()) {
+        return fuzz_entry(&crate::ctx::unhex(h)).err();
+    }
     let content = input_from_json(&case["content"]);
     let mut loc = Local::default();
     check(
@@ -327,4 +330,14 @@ fn replay(case: &Value, _ctx: &mut Ctx) -> Option<String> {
         &mut loc,
     )
     .err()
+}
+
+/// libFuzzer entry: byte 0 = mode bits, rest = tag content (ASCII part only)
+pub fn fuzz_entry(data: &[u8]) -> Result<(), String> {
+    if data.is_empty() {
+        return Ok(());
+    }
+    let content: Vec<u8> = std::iter::once(b't').chain(data[1..].iter().map(|b| b & 0x7F)).collect();
+    let mut loc = Local::default();
+    check(&content, 1, data[0] & 1 == 1, data[0] & 2 == 2, data[0] & 4 == 4, &mut loc)
 }
